@@ -166,7 +166,7 @@ fn indices_case(a: usize, b: usize) {
     assert!(x == a as i64 && y == b as i64);
 }
 
-// @verif prop=C10 id=O10.7 tier=quick unwind=4 stubs="alloc::fmt::format->empty String" bound="FILTER-style string-map index vector of 2 indices, ALL usize pairs: width holds the maximum, each index reads back equal (independent BCF2 parse), >i32::MAX rejected" fns="encoder::string_map::write_string_map_indices,write_value,write_array"
+// @verif prop=C10 id=O10.7 tier=off off_reason="does not fit: >900 s (Vec collect + boxed trait-object iteration in write_array)" unwind=4 stubs="alloc::fmt::format->empty String" bound="FILTER-style string-map index vector of 2 indices, ALL usize pairs: width holds the maximum, each index reads back equal (independent BCF2 parse), >i32::MAX rejected" fns="encoder::string_map::write_string_map_indices,write_value,write_array"
 #[kani::proof]
 #[kani::unwind(4)]
 #[kani::stub(std::fmt::format, stub_fmt_format)]
